@@ -113,8 +113,11 @@ impl Env {
         let (locals, peers, tcp_server, tcp_client, tcp_local, tcp_peer, turn_client, turn_server, shared, shared_addr, shared_reg, listener) = rt.block_on(async {
             let locals = [Arc::new(UdpSocket::bind("127.0.0.1:0").await.unwrap()), Arc::new(UdpSocket::bind("127.0.0.1:0").await.unwrap())];
             let sp = || { let s = std::net::UdpSocket::bind("127.0.0.1:0").unwrap(); s.set_nonblocking(true).unwrap(); s };
-            let p0 = sp();
-            let p3 = { let s = std::net::UdpSocket::bind(("127.0.0.2", p0.local_addr().unwrap().port())).expect("bind 127.0.0.2:<port of peer 0>"); s.set_nonblocking(true).unwrap(); s };
+            // peer 3 = same port as peer 0 on another loopback address (retry until such a pair can be bound)
+            let (p0, p3) = loop {
+                let p0 = sp();
+                if let Ok(s) = std::net::UdpSocket::bind(("127.0.0.2", p0.local_addr().unwrap().port())) { s.set_nonblocking(true).unwrap(); break (p0, s); }
+            };
             let peers = [p0, sp(), sp(), p3];
             let listener = TcpListener::bind("127.0.0.1:0").await.unwrap();
             let tcp_local = listener.local_addr().unwrap();
